@@ -1,8 +1,11 @@
 #!/bin/bash
 # seed_run.sh <patch.diff> <ID> [<ID>...]: apply a seeded change to /repo, run the quick checks, undo it.
 P="$1"; shift
+rm -rf /tmp/evidence_keep && cp -r /verif/evidence /tmp/evidence_keep
 cd /repo && git apply "$P" || { echo "patch does not apply"; exit 2; }
 for id in "$@"; do
   (cd /verif && ./check $id --tier ${TIER:-quick} 2>/dev/null | grep -E "VIOLATION|KNOWN|exit") 
 done
 cd /repo && git checkout -- . && git status --short | grep -v '^??'
+# evidence must only ever come from runs on the unchanged tree
+rm -rf /verif/evidence && mv /tmp/evidence_keep /verif/evidence
